@@ -91,11 +91,11 @@ def run_job(job):
             qtext = f.read()
         pr, pq = pl.parse_cmap_text(rtext), pl.parse_cmap_text(qtext)
         runs = {}
-        for mode in job['modes']:
+        for mi, mode in enumerate(job['modes']):
             cm.reset()
             try:
                 with time_limit(240):
-                    run = pl.run_program(d, mode, param_args(params))
+                    run = pl.run_program(d, mode, param_args(params), style=job.get('style', (seed + mi) % 3))
             except CaseTimeout:
                 out['violations'].append(('src/program.py::Program.run::monitor::C07::terminates', None, dict(mode=mode), job, mode))
                 continue
@@ -131,7 +131,17 @@ def run_job(job):
                 out['violations'].append((key, mech, detail, job, mode))
         if 'C08' in job['oracles'] and all(m in runs for m in ('separate', 'joined', 'all', 'best')):
             from bcheck import c08
-            for key, mech, detail in c08.compare_modes(runs, pr, pq, params, cm):
+            try:
+                found = c08.compare_modes(runs, pr, pq, params, cm)
+            except Exception:
+                # the comparison needs well-formed files; a malformed one is itself a violation (of C07/C08), anything else is a checker error
+                malformed = [(m, sfx) for m, r in runs.items() for sfx, text in r.files.items()
+                             if any(rec.get('_ncols') != 15 for rec in pl.parse_xmap_text(text)[1])]
+                if not malformed:
+                    raise
+                found = [('src/multi_pass_workflow_coordinator.py::_MultiPassWorkflowCoordinator.execute::monitor::C08::files_of_every_mode_are_well_formed', None,
+                          dict(malformed=malformed[:4]))]
+            for key, mech, detail in found:
                 out['violations'].append((key, mech, detail, job, 'modes'))
     finally:
         pl.cleanup(d)
